@@ -5,7 +5,7 @@
    silently; `Print Assumptions` lists the axioms it depends on (none are declared by this development). *)
 From Coq Require Import NArith List Bool String.
 From Octo Require Import Base.Bytes Crypto.Prims Lib.Framed Lib.Canon Model.Address Model.NonceGen Model.SsChunk Model.SsTcp Model.Trojan Model.Socks5 Model.Http Generated.Params Generated.Shared
-  Proofs.AddressFacts Proofs.NonceFacts Proofs.SsChunkRoundtrip Proofs.SsChunkCanon Proofs.SsTcpSafety Proofs.SsTcpRoundtrip Proofs.CodecLemmas Proofs.TrojanFacts Proofs.Socks5Facts Proofs.HttpFacts.
+  Proofs.AddressFacts Proofs.NonceFacts Proofs.SsChunkRoundtrip Proofs.SsChunkCanon Proofs.SsTcpSafety Proofs.SsTcpRoundtrip Proofs.CodecLemmas Proofs.TrojanFacts Proofs.Socks5Facts Proofs.HttpFacts Model.Vmess Proofs.VmessSafety Proofs.VmessFacts Model.SsUdp Proofs.SsUdpFacts Proofs.SsChunkTamper.
 Import ListNotations.
 Set Printing Width 200.
 
@@ -31,6 +31,16 @@ Definition C06_ss_no_insert_no_release := @no_release_without_insert.
 Definition C06_trojan_errors := @trojan_server_decode_errors.
 
 
+(* VMess: an item requires an auth id matching a REGISTERED user key (CRC, time window) and a header opened under that key *)
+Definition C06_vmess_requires_user := @vmess_requires_user.
+(* VMess: without registered users nothing is ever served *)
+Definition C06_vmess_no_user_no_service := @vmess_no_user_no_service.
+(* Shadowsocks stream: a decoder under whose key nothing was sealed releases nothing *)
+Definition C06_ss_no_credential_no_release := @reflection_rejected.
+
+Check @C06_vmess_requires_user.
+Check @C06_vmess_no_user_no_service.
+Check @C06_ss_no_credential_no_release.
 Check @C06_trojan_requires_hash.
 Check @C06_trojan_wrong_key.
 Check @C06_ss_release_needs_auth.
@@ -45,3 +55,6 @@ Print Assumptions C06_ss_accept.
 Print Assumptions C06_ss_eih_binds_user.
 Print Assumptions C06_ss_no_insert_no_release.
 Print Assumptions C06_trojan_errors.
+Print Assumptions C06_vmess_requires_user.
+Print Assumptions C06_vmess_no_user_no_service.
+Print Assumptions C06_ss_no_credential_no_release.
